@@ -316,7 +316,7 @@ func TestVerifC12Cluster(t *testing.T) {
 	rapid.Check(t, func(rt *rapid.T) {
 		c := genC12(rt)
 		v, nt, inc := runC12(c)
-		if inc {
+		if inc || (v != nil && transportNoise(v.Message)) {
 			col.Inconclusive()
 			return
 		}
